@@ -86,7 +86,8 @@ def cases(draw, tier="quick"):
         conv = [{"prefix": f"k{i}", "uri_prefix": u, "prefix_synonyms": [], "uri_prefix_synonyms": [], "pattern": None} for i, u in enumerate(ups)]
     perm = list(draw(st.permutations(range(len(uris))))) if len(uris) > 1 else list(range(len(uris)))
     dup = draw(st.lists(st.integers(0, max(0, len(uris) - 1)), max_size=3)) if uris else []
-    return {"uris": uris, "delimiters": delimiters, "cutoff": cutoff, "metaprefix": metaprefix, "converter": conv, "perm": perm, "dup": dup}
+    return {"uris": uris, "delimiters": delimiters, "cutoff": cutoff, "metaprefix": metaprefix, "converter": conv, "perm": perm, "dup": dup,
+            "container": draw(st.sampled_from(["list", "tuple", "iterator", "generator"]))}
 
 
 def _run(uris, case, conv):
@@ -95,7 +96,9 @@ def _run(uris, case, conv):
         kw["delimiters"] = list(case["delimiters"])
     if case["cutoff"] is not None:
         kw["cutoff"] = case["cutoff"]
-    return curies.discover(list(uris), metaprefix=case["metaprefix"], converter=conv, **kw)
+    kind = case.get("container", "list")
+    arg = {"list": list, "tuple": tuple, "iterator": lambda x: iter(list(x)), "generator": lambda x: (u for u in list(x))}[kind](uris)
+    return curies.discover(arg, metaprefix=case["metaprefix"], converter=conv, **kw)
 
 
 def check(case, stats: Stats) -> None:
